@@ -108,16 +108,16 @@ def check_c07(ctx):
     vlib.build_worker(ctx)
     maxchain, pk = tier_params(ctx)
     rep = vlib.Report(ctx)
-    pairs = run_codec(ctx, ['wild', 'payload', 'single', 'ext', 'chain'] + (['pair'] if ctx.tier == 'thorough' else []), maxchain, pk,
+    pairs = run_codec(ctx, ['wild', 'payload', 'odd', 'single', 'ext', 'chain'] + (['pair'] if ctx.tier == 'thorough' else []), maxchain, pk,
                       extra=['-mutate', '400' if ctx.tier == 'thorough' else '40'])
     collect(ctx, rep, pairs, ['c07total', 'c07idem', 'c07bytes'], lambda o, v: 'n1=%s n2=%s err=%s' % (o.get('n1', '')[:120], o.get('n2', '')[:120], o['err'][:200]),
-            lambda o, v: o['case']['fam'] in ('wild', 'payload'))
+            lambda o, v: o['case']['fam'] in ('wild', 'payload', 'odd'))
     rep.counts['byte_level_mutants'] = sum(o.get('nmut', 0) for o, v in pairs)
     return rep.finish(
         'model_checking',
         'CodecCases.tla family "wild": every keyword of every kind / flavour with each of 13 value classes, right or wrong (null, '
         'booleans, zero, number, empty and non-empty string, empty / string / object / mixed array, empty and non-empty object), '
-        'family "payload": free-form members with nulls, empty containers and nested mixtures, plus the normal-form families and '
+        'family "payload": free-form members with nulls, empty containers and nested mixtures, family "odd": odd strings ("#", "##", bad percent escapes, bad hosts, spaces, control characters, bad ~ escapes, very long fragments) at every $ref / $schema / id / url member, plus the normal-form families and '
         'nesting chains; every document is decoded into its model type in a watchdogged child process. Predicates: the outcome is '
         'a value or an error (no panic, hang, fatal error); when decoding succeeds the encoding n1 is reproduced byte for byte by '
         'decoding and encoding n1 again. Byte level (outside TLC\'s reach, exploration strength): each rendered document is '
@@ -207,7 +207,7 @@ def check_c06(ctx):
             if len(rep.samples) < 2 and len(o['items']) == 3 and any(i['xo'] == 'f15' for i in o['items']):
                 rep.samples.append({'items': o['items'], 'encoded': o['sample'], 'runs': o['runs']})
     # (b) every encoding performed for the vocabulary families: token scan, parse-back, determinism
-    pairs = run_codec(ctx, ['single', 'pair', 'ext', 'chain', 'wild', 'payload'], maxchain, pk)
+    pairs = run_codec(ctx, ['single', 'pair', 'ext', 'chain', 'wild', 'payload', 'odd'], maxchain, pk)
     collect(ctx, rep, pairs, ['c06'], lambda o, v: 'dups=%s faithful=%s det=%s' % (o.get('dups'), o.get('faithful'), o.get('det')),
             lambda o, v: o['outcome'] == 'ok')
     # (c) values obtained through the builder API
